@@ -90,23 +90,38 @@ Definition pset_seq_case (U : list node) (pairs : list (Z * Z)) (ops : list cpop
   tbl_eqb (s_prims s) (mktbl U oprims) && tbl_eqb (s_terms s) (mktbl U oterms) &&
   Z.eqb (s_tc s) tc && Z.eqb (s_pc s) pc.
 
-Definition check (c : case) : bool :=
+(* the functions a case is replayed with: the hand model, or the definitions regenerated from the source
+   (coq/Gen/C11_gen.v instantiates this record, see harness/c11_gen_trailer.v.in) *)
+Record impl := mkimpl {
+  i_search : list node -> Z -> res (nat * nat);
+  i_height : list node -> res Z;
+  i_set_slice : list node -> nat -> nat -> list node -> res (list node);
+  i_set_item : list node -> Z -> node -> res (list node);
+  i_gen : pset -> gexpr -> option ty -> M (list node);
+  i_op : pset -> opcall -> list (list node) -> M (list (list node));
+  i_lim : pset -> lkey -> Z -> opcall -> list (list node) -> M (list (list node))
+}.
+Definition model_impl : impl :=
+  mkimpl search_subtree_py height set_slice set_item_py gen_expr run_op
+         (fun ps k maxv oc inputs => static_limit k maxv (run_op ps oc) inputs).
+
+Definition check_with (I : impl) (c : case) : bool :=
   match c with
-  | CSearch U l b obs => agree0 span_eqb (search_subtree_py (mk U l) b) obs
-  | CHeight U l obs => agree0 Z.eqb (height (mk U l)) obs
+  | CSearch U l b obs => agree0 span_eqb (i_search I (mk U l) b) obs
+  | CHeight U l obs => agree0 Z.eqb (i_height I (mk U l)) obs
   | CSetSlice U l b e v obs =>
-      agree0 (fun a o => nodes_eqb a (mk U o)) (set_slice (mk U l) b e (mk U v)) obs
+      agree0 (fun a o => nodes_eqb a (mk U o)) (i_set_slice I (mk U l) b e (mk U v)) obs
   | CSetItem U l i v obs =>
-      agree0 (fun a o => nodes_eqb a (mk U o)) (set_item_py (mk U l) i (mk1 U v)) obs
+      agree0 (fun a o => nodes_eqb a (mk U o)) (i_set_item I (mk U l) i (mk1 U v)) obs
   (* a tree object that was not an argument of the call is unchanged *)
   | CUnch U a b => nodes_eqb (mk U a) (mk U b)
   | CGen U ps g t ds obs =>
-      agree (fun a o => nodes_eqb a (mk U o)) (gen_expr ps g (oty t) ds) obs
+      agree (fun a o => nodes_eqb a (mk U o)) (i_gen I ps g (oty t) ds) obs
   | COp U ps oc inputs ds obs =>
-      agree (fun a o => trees_eqb a (map (mk U) o)) (run_op ps oc (map (mk U) inputs) ds) obs
+      agree (fun a o => trees_eqb a (map (mk U) o)) (i_op I ps oc (map (mk U) inputs) ds) obs
   | CLim U ps k maxv oc inputs ds obs =>
       agree (fun a o => trees_eqb a (map (mk U) o))
-            (static_limit k maxv (run_op ps oc) (map (mk U) inputs) ds) obs
+            (i_lim I ps k maxv oc (map (mk U) inputs) ds) obs
   (* the predicates of the theorems (complete / well typed at e), evaluated on a concrete list,
      against the harness's independent checker *)
   | CWt U pairs e l oc ot =>
@@ -114,3 +129,5 @@ Definition check (c : case) : bool :=
   | CPsetSeq U pairs ops oprims oterms tc pc => pset_seq_case U pairs ops oprims oterms tc pc
   | CPset U pairs ops oprims oterms tc pc => pset_case U pairs ops oprims oterms tc pc
   end.
+
+Definition check (c : case) : bool := check_with model_impl c.
